@@ -17,4 +17,5 @@ def run(tier):
     abi.grow_abi_rule(run, fx["hook/default"], "C23-ABI")
     from rules import wave3
     wave3.callback_only_via_grow_rule(run, fx["hook/default"], "C23-CALLBACK-ONLY-VIA-GROW")
+    wave3.grow_size_rule(run, fx["core/default"], "C23-SEGMENT-SIZE")
     return run.finish()
